@@ -28,6 +28,13 @@ type FileFlags struct {
 	Truncate bool
 }
 
+// readSeekNopCloser keeps the write buffer usable when an operation closes its source
+type readSeekNopCloser struct {
+	io.ReadSeeker
+}
+
+func (readSeekNopCloser) Close() error { return nil }
+
 type File struct {
 	afero.File
 
@@ -110,6 +117,12 @@ func (f *File) syncWithoutLocking() error {
 	}
 
 	if f.writeBuf != nil {
+		// Flushing must neither close the buffer nor move the cursor
+		pos, err := f.writeBuf.Seek(0, io.SeekCurrent)
+		if err != nil {
+			return err
+		}
+
 		done := false
 		if _, err := f.writeOps.Update(
 			func() (config.FileConfig, error) {
@@ -157,7 +170,7 @@ func (f *File) syncWithoutLocking() error {
 							return nil, err
 						}
 
-						return f.writeBuf, nil
+						return readSeekNopCloser{f.writeBuf}, nil
 					},
 					Info: f.info,
 					Path: f.path,
@@ -168,6 +181,10 @@ func (f *File) syncWithoutLocking() error {
 			true,
 			true,
 		); err != nil {
+			return err
+		}
+
+		if _, err := f.writeBuf.Seek(pos, io.SeekStart); err != nil {
 			return err
 		}
 	}
@@ -193,8 +210,11 @@ func (f *File) closeWithoutLocking() error {
 	}
 
 	if f.writeBuf != nil {
-		// No need to close write buffer, the `update` operation closes it itself
 		if err := f.syncWithoutLocking(); err != nil {
+			return err
+		}
+
+		if err := f.writeBuf.Close(); err != nil {
 			return err
 		}
 
@@ -282,7 +302,12 @@ func (f *File) enterWriteMode() error {
 			}
 		}
 
-		if !f.flags.Append {
+		if f.flags.Append {
+			// Truncating does not move the cursor
+			if _, err := f.writeBuf.Seek(0, io.SeekEnd); err != nil {
+				return err
+			}
+		} else {
 			if _, err := f.writeBuf.Seek(pos, io.SeekStart); err != nil {
 				return err
 			}
